@@ -777,6 +777,8 @@ def cmd_check(prop, tier, seed):
     seen = {}
     known_matched = []
     violations = []
+    # children finish in any order: pick the representative of every signature deterministically
+    all_cands.sort(key=lambda c: (c["engine"], c["sub"], c["path"]))
     for cand in all_cands:
         sig = sig_of(cand["result"])
         key = json.dumps(sig, sort_keys=True)
